@@ -427,6 +427,7 @@ def run(ctx):
     fpool = sorted(set(fpool))
     for _ in range(150 if not ctx.thorough else 1500):
         fsets.append(rng.sample(fpool, rng.choice([1, 2, 2, 3, 4])))
+    fsets += [["x_y_z", "x_yz"], ["pos_x_y", "pos_xy"], ["address_line_1", "address_line1"], ["a_b_c", "a_bc", "ab_c"], ["i_d", "id"]]
     nkeys = 0
     for fs in fsets:
         if not all(I.usable(f) for f in fs) or len(set(fs)) != len(fs):
@@ -442,6 +443,28 @@ def run(ctx):
                 ("field_for_key", fs, k))
             nkeys += 1
     ctx.count("field_for_key_cases", nkeys)
+    # oracle on multi-field classes: a key that exactly one field of the class owns (it is that field's camelCase key, its
+    # snake key or its proto name, and no other field's) must be delivered to that field by all three dict readers
+    nown = 0
+    for fs in fsets:
+        if not all(I.usable(f) for f in fs) or len(set(fs)) != len(fs) or len(fs) < 2:
+            continue
+        if not all(C.safe_snake_case(f) == f for f in fs):
+            continue        # only Python field names the plugin can produce (fixed points of pythonize_field_name) coexist in a class
+        for f in fs:
+            for key in dict.fromkeys([I.camel_key(f), I.snake_key(f), f]):
+                owners = [g for g in fs if key in (I.camel_key(g), I.snake_key(g), g)]
+                if owners != [f]:
+                    continue
+                nown += 1
+                try:
+                    got = I.field_for_key(fs, key)
+                except Exception as e:  # noqa
+                    got = f"<{type(e).__name__}: {e}>"
+                if got != f:
+                    ctx.fail("oracle", f"class with fields {fs}: key {key!r}, which only field {f!r} owns, is delivered to {got!r} by from_dict",
+                             cls="sibling-key-misdelivered", input=["field_for_key", fs, key])
+    ctx.count("owned_key_oracle_cases", nown)
 
     # ---------------------------------------------------------------- one-field classes: emitted keys and the end-to-end oracle
     n5 = 5 if not ctx.thorough else 6
